@@ -35,7 +35,7 @@ def registry():
     R["C02"] = _p(
         "Decides structural clauses of C02 on src/xls.rs: the sheet-substream dispatch has an arm feeding the cell vector for each record kind the property names (R-TAB-REC); BoolErr / FormulaValue error codes follow MS-XLS BErr (R-TAB-ERR); DIMENSIONS only sizes a reserve (R-DIM).",
         "RK / IEEE bit arithmetic, sign extension, MULRK column arithmetic",
-        [T.r_tab_rec, T.r_tab_err, W.r_dim, W.r_minmax, M.r_rk, M.r_accum])
+        [T.r_tab_rec, T.r_tab_err, W.r_dim, W.r_minmax, M.r_rk, M.r_accum, W.r_cont, U.r_lenguard])
     R["C03"] = _p(
         "Decides structural clauses of C03 on src/xlsb: sibling agreement of next_cell / next_formula on record framing, row state, record ids and position computation (R-SIB-XLSB); error-code table (R-TAB-ERR); BrtWsDim only sizes capacity hints (R-DIM); Empty filter and header-row filter of the lazy range builder (R-TIGHT); the record-header decoders read at most 2 (type) / 4 (size) bytes of 7 bits each with shifts 7, 14, 21 -- partial evaluation of their MIR with the input bytes unknown (R-VARINT).",
         "RK arithmetic beyond the flag handling, wide_str decoding",
@@ -43,7 +43,7 @@ def registry():
     R["C04"] = _p(
         "Decides the value-attribute -> variant table of the ods cell decoder (R-TAB-ODS) and the reader configuration (R-XMLCFG). Amplification by repeat counts is decided under C06.",
         "everything in get_range: bounding box, re-expansion of repeated rows/columns, interior empty runs (run-length arithmetic)",
-        [T.r_tab_ods, X.r_xmlcfg, W.r_odspara, M.r_odsrep, M.r_odsflat])
+        [T.r_tab_ods, X.r_xmlcfg, W.r_odspara, M.r_odsrep, M.r_odsflat, U.r_odswidth])
     R["C06"] = _p(
         "Decides, over the HIR/MIR of the reader modules (cfb, vba, xls, xlsb, xlsx, ods, utils, auto, plus Dimensions::len and Range::from_sparse): XML pull loops leave on Eof (R-EOF); self-chasing loops have a bounding exit (R-CHASE); Range::range preconditions (R-RANGEPRE); and, by abstract interpretation of MIR (linear expressions over source atoms, intervals, symbolic and exact slice lengths, branch refinement, helper summaries): every slice/index/split/copy on file bytes or with a file-derived index is bounds-proved (R-INDEX), file-derived arithmetic cannot overflow (R-ARITH), file-derived allocation sizes are capped or input-bounded (R-ALLOC), file-derived trip counts consume input or do not grow memory (R-AMP), unwrap/expect/panic constructs are discharged by an enumerated idiom (R-PANIC); the byte count of Read::read is never discarded (R-IOAMT); the character loop of read_dbcs advances to the next CONTINUE fragment or fails whenever characters are owed (R-DBCS-PROGRESS).  Sites the pinned tree leaves unchecked are listed in known_findings.json (each group demonstrated by a failing input) or audited_safe.json (one reason per site).",
         "dependencies (zip, quick-xml, encoding_rs, codepage); time / memory constants",
@@ -55,7 +55,7 @@ def registry():
     R["C08"] = _p(
         "Decides: options.header_row has one writer and is re-read on every call (R-FRAME); the lazy filter keeps rows >= n and pads at row n iff needed (R-TIGHT); Range::range is only reached with start <= end established (R-RANGEPRE); Sheets::with_header_row delegates (R-DELEG).",
         "value equality between the eager (xls, ods) and lazy (xlsx, xlsb) implementations",
-        [W.r_frame, S.r_tight, W.r_rangepre, S.r_deleg])
+        [W.r_frame, S.r_tight, W.r_rangepre, S.r_deleg, W.r_dim, U.r_hdrwin])
     R["C09"] = _p(
         "Decides: size_hint reads state that next advances (R-ITER); error positions depend on the column index and the row position advances (R-POS); every DataDeserializer method maps Data::Error to CellError{kind,pos} and Empty as documented (R-TAB-DE); header selection trims both sides, compares exactly and reports HeaderNotFound (R-HDR); map access skips exactly the empty cells (R-MAPKEY); integer cells reach integer fields by one `as` cast, never through a float (R-INTCAST); numeric strings are parsed as the field's own type (R-NUMPARSE).",
         "values of the casts themselves, serde's own behaviour",
@@ -63,7 +63,7 @@ def registry():
     R["C10"] = _p(
         "Decides: numeric Data/DataRef variants are built in the three readers only through formats::format_excel_* whose format operand comes from the cell's style lookup and whose date-system operand from the reader flag (R-NUMCTOR); the two built-in id tables agree with each other and with ECMA-376 18.8.30 (R-TAB-FMT); format kind -> DateTime/TimeDelta flavour (R-TAB-FMTKIND); style tables get one entry per xf (R-SST).",
         "the full number-format grammar (R-FMT-SCAN decides the per-character decision table of the scanner against the clauses the property states, not the language as a whole)",
-        [W.r_numctor, T.r_tab_fmt, T.r_tab_fmtkind, part(W.r_sst, only=["cellXfs", "XF table"]), W.r_fmtprec, M.r_unesc, Q.r_fmt_scan])
+        [W.r_numctor, T.r_tab_fmt, T.r_tab_fmtkind, part(W.r_sst, only=["cellXfs", "XF table"]), W.r_fmtprec, M.r_unesc, Q.r_fmt_scan, U.r_xlsbcell])
     R["C11"] = _p(
         "Decides only the totality clause of C11 (feature `dates`): every chrono call reachable in the date conversions is a fallible/checked API or has constant operands, so a serial value beyond the representable calendar yields None rather than a panic (R-PANIC-DATES).",
         "epoch, 1900 leap-year shim, 1904 offset, rounding to the millisecond, monotonicity, as_date/as_time being components of as_datetime: all numeric and not decided",
@@ -87,7 +87,7 @@ def registry():
     R["C17"] = _p(
         "Decides: guarded header/totals adjustments use their own field and regions/tables are attributed to the scanned sheet (R-TBL); cache fields are written only by their loaders (R-FRAME); Range::range precondition before table windowing (R-RANGEPRE).",
         "coordinate arithmetic",
-        [W.r_tbl, W.r_frame, W.r_rangepre, M.r_accum, M.r_tblfresh, M.r_counthint, M.r_unesc])
+        [W.r_tbl, W.r_frame, W.r_rangepre, M.r_accum, M.r_tblfresh, M.r_counthint, M.r_unesc, S.r_at, X.r_ns])
     R["C19"] = _p(
         "Decides: shared-string tables get one entry per item (R-SST); every text-accumulating event match handles Text and CData and unescapes (R-CDATA); readers never trim and always expand empty elements (R-XMLCFG); phonetic flag set/cleared in pairs and guarding <t> (R-RPH); prefix-insensitive element matching incl. rich-text closing tags (R-NS); CONTINUE handling of xls strings (R-CONT) and the single-decoder rule for their storage forms (R-DBCS-ENC).",
         "per-character decoding in dependencies (encoding_rs, quick-xml entity expansion)",
